@@ -660,6 +660,10 @@ structure Inv (s : Srv) : Prop where
   i6 : ∀ ip, s.env.xban ip = true → s.banned ip = true
   /-- accepted nonces were issued -/
   i8 : ∀ n, n ∈ s.env.usedSeen → n < s.nextNonce
+  /-- the client index only has entries for clients of the table -/
+  i9 : ∀ x c, s.reg x = some c → x < s.nClients
+  /-- a connection's client id is a client of the table -/
+  i10 : ∀ c x, (pairOf (s.ctl c)).2 = some x → x < s.nClients
 
 theorem track_cases (g : Env) (now nc : Nat) (e : Event) (r : RespObs) :
     (∃ c ty k rr n, e = .hs c ty k rr ∧ r = .ch n ∧ (g.track now nc e r).lastCh = upd g.lastCh c (some n) ∧
@@ -745,7 +749,7 @@ theorem step_fields (s : Srv) (e : Event) :
   ⟨rfl, rfl, rfl, rfl, rfl, rfl, rfl, rfl, rfl, rfl, rfl⟩
 
 theorem Inv.preserved {s : Srv} (I : Inv s) (e : Event) : Inv (Tunnox.C03.step s e).1 := by
-  obtain ⟨q1, q2, q3, _, _, _, _, _, _, q10, _⟩ := step_fields s e
+  obtain ⟨q1, q2, q3, q4, q5, _, _, _, _, q10, _⟩ := step_fields s e
   have sp := stepCore_spec s e
   generalize (stepCore s e).1 = s' at *
   generalize (stepCore s e).2 = r at *
@@ -781,6 +785,25 @@ theorem Inv.preserved {s : Srv} (I : Inv s) (e : Event) : Inv (Tunnox.C03.step s
     rcases track_xban _ _ _ _ _ _ h with a | ⟨a, b⟩
     · exact sp.banev ip a
     · exact sp.ban ip b (I.i6 ip a)
+  have g10 : ∀ c x, (pairOf (s''.ctl c)).2 = some x → x < s''.nClients := by
+    intro c x h
+    rw [q1] at h
+    rw [q5]
+    rcases sp.auth c with a | a | ⟨_, y, b, d⟩
+    · rw [a] at h; have := I.i10 c x h; have := sp.ncl; omega
+    · rw [a] at h; simp [pairOf] at h
+    · rw [b] at h
+      have hxy : y = x := by simpa using h
+      subst hxy
+      obtain ⟨_, _, d | d⟩ := d
+      · obtain ⟨_, _, d1, d2, _⟩ := d; omega
+      · obtain ⟨_, _, _, _, _, d1, _⟩ := d; have := sp.ncl; omega
+  have g9 : ∀ x c, s''.reg x = some c → x < s''.nClients := by
+    intro x c h
+    rw [q4] at h
+    rcases sp.reg x c h with a | ⟨_, b, _⟩
+    · rw [q5]; have := I.i9 x c a; have := sp.ncl; omega
+    · exact g10 c x (by rw [q1, b])
   rcases track_cases s.env s.now s.nClients e r with ⟨c, ty, k, rr, n, he, hr, t1, t2, t3⟩ |
       ⟨c, ty, k, key, nr, n, he, hr, hres, t1, t2, t3⟩ | ⟨t1, t2, t3⟩
   · -- a challenge was delivered on `c`
@@ -795,7 +818,7 @@ theorem Inv.preserved {s : Srv} (I : Inv s) (e : Event) : Inv (Tunnox.C03.step s
       intro d; rw [q10, t1]; rfl
     have hv : ∀ d, s''.env.prevCh d = if d = c then s.env.lastCh c else s.env.prevCh d := by
       intro d; rw [q10, t2]; rfl
-    refine ⟨g1, ?_, ?_, ?_, g5, g6, ?_⟩
+    refine ⟨g1, ?_, ?_, ?_, g5, g6, ?_, g9, g10⟩
     · intro d m h
       rw [q2, hn1]
       rw [hl, hv] at h
@@ -879,7 +902,7 @@ theorem Inv.preserved {s : Srv} (I : Inv s) (e : Event) : Inv (Tunnox.C03.step s
       rcases hp c1 m h with a | ⟨_, _, _, a4⟩
       · exact a
       · rcases a4 with a4 | a4 <;> rw [hr] at a4 <;> cases a4
-    refine ⟨g1, ?_, ?_, ?_, g5, g6, ?_⟩
+    refine ⟨g1, ?_, ?_, ?_, g5, g6, ?_, g9, g10⟩
     · intro d m h
       rw [q10, t1, t2] at h
       rw [q2]
@@ -904,7 +927,7 @@ theorem Inv.preserved {s : Srv} (I : Inv s) (e : Event) : Inv (Tunnox.C03.step s
       · subst hm; have := I.i1 c m hp1; omega
       · have := I.i8 m hm; omega
   · -- the clients learned nothing new
-    refine ⟨g1, ?_, ?_, ?_, g5, g6, ?_⟩
+    refine ⟨g1, ?_, ?_, ?_, g5, g6, ?_, g9, g10⟩
     · intro d m h
       rw [q10, t1, t2] at h
       rw [q2]
@@ -928,4 +951,168 @@ theorem Inv.preserved {s : Srv} (I : Inv s) (e : Event) : Inv (Tunnox.C03.step s
       have := I.i8 m hmem; omega
 
 theorem Inv.initial (now : Nat) (ips : List Nat) (nc burst : Nat) : Inv (Srv.init now ips nc burst) := by
-  refine ⟨?_, ?_, ?_, ?_, ?_, ?_, ?_⟩ <;> simp [Srv.init, pend]
+  refine ⟨?_, ?_, ?_, ?_, ?_, ?_, ?_, ?_, ?_⟩ <;> simp [Srv.init, pend, pairOf]
+
+/-! ### the observer's predicate on the model's own observations -/
+
+theorem getD_map_range {α} (f : Nat → α) (n c : Nat) (d : α) :
+    ((List.range n).map f).getD c d = if c < n then f c else d := by
+  simp only [List.getD_eq_getElem?_getD, List.getElem?_map]
+  split <;> simp_all
+
+theorem obs_conn (s : Srv) (c : Nat) :
+    (obsState s).conn c = if c < s.nConns then (s.ctl c).map connObs else none := by
+  simp only [ObsState.conn, obsState, getD_map_range]
+
+theorem obs_lookup (s : Srv) (x : Nat) :
+    (obsState s).lookups.getD x none = if x < s.nClients then s.reg x else none := by
+  simp only [obsState, getD_map_range]
+
+theorem obs_ban (s : Srv) (ip : Nat) :
+    (obsState s).bans.getD ip false = if ip < s.nIps then s.banned ip else false := by
+  simp only [obsState, getD_map_range]
+
+theorem obs_bl (s : Srv) (ip : Nat) :
+    (obsState s).bls.getD ip false = if ip < s.nIps then s.env.bl ip else false := by
+  simp only [obsState, getD_map_range]
+
+theorem obs_lens (s : Srv) : (obsState s).conns.length = s.nConns ∧ (obsState s).lookups.length = s.nClients := by
+  simp [obsState]
+
+theorem authPair_map (o : Option Ctl) : authPair (o.map connObs) = pairOf o := by
+  cases o <;> rfl
+
+theorem justified_of_Jm {s : Srv} (I : Inv s) {e : Event} {o : StepObs} {c x : Nat}
+    (h : Jm s e o.resp o.st.lookups.length c x) :
+    justified s.now s.ipOf (proj s) e o c x = true := by
+  obtain ⟨hbl, hban, h⟩ := h
+  have hx : s.env.xban (s.ipOf c) = false := by
+    cases hh : s.env.xban (s.ipOf c) with
+    | false => rfl
+    | true => have := I.i6 _ hh; rw [hban] at this; cases this
+  have hgate : gateOpen (proj s) (s.ipOf c) = true := by
+    simp only [gateOpen, proj, obs_ban, obs_bl, hx, hbl, hban]
+    simp
+  unfold justified
+  rw [hgate]
+  rcases h with ⟨ty, he, h1, h2, h3⟩ | ⟨ty, key, nr, n, he, h1, h2, h3, h4, h5, h6⟩
+  · subst he
+    simp only [proj, (obs_lens s).2, Bool.true_and, beq_self_eq_true, Bool.and_eq_true, beq_iff_eq, Bool.or_eq_true]
+    exact ⟨⟨h1, h2⟩, h3⟩
+  · subst he
+    subst h3
+    obtain ⟨i3a, i3b⟩ := I.i3 c n h5
+    have hlast : s.env.lastCh c = some n := by
+      cases nr with
+      | last d =>
+        simp only [Env.resolveN] at h4
+        have := i3a d h4
+        subst this
+        exact h4
+      | prev d =>
+        simp only [Env.resolveN] at h4
+        exact absurd h4 (i3b d)
+    have hused : s.env.usedSeen.contains n = false := by
+      cases hh : s.env.usedSeen.contains n with
+      | false => rfl
+      | true => exact absurd (List.contains_iff_mem.mp hh) (I.i4 c n h5)
+    simp only [proj, (obs_lens s).2, h4, hlast, hused, h2, Bool.true_and, beq_self_eq_true, Bool.and_eq_true, beq_iff_eq,
+      Bool.or_eq_true, decide_eq_true_eq, Bool.not_false, Bool.and_true]
+    refine ⟨h1, ?_⟩
+    rcases h6 with h6 | h6
+    · left; exact h6
+    · right; exact h6
+
+theorem holdsStep_model {s : Srv} (I : Inv s) (e : Event) :
+    holdsStep s.now s.ipOf (proj s) e ⟨(step s e).2, obsState (step s e).1⟩ = true := by
+  obtain ⟨q1, _, _, q4, q5, q6, _, _, _, _, q11⟩ := step_fields s e
+  have sp := stepCore_spec s e
+  generalize (stepCore s e).1 = s' at *
+  generalize (stepCore s e).2 = r at *
+  generalize hs'' : (step s e).1 = s'' at *
+  rw [q11]
+  have hnc : s''.nConns = s.nConns := by rw [q6]; exact sp.frame.2.1
+  have hJ : ∀ c x, Jm s e r s'.nClients c x → justified s.now s.ipOf (proj s) e ⟨r, obsState s''⟩ c x = true := by
+    intro c x h
+    apply justified_of_Jm I
+    simp only [(obs_lens s'').2, q5]
+    exact h
+  unfold holdsStep
+  simp only [Bool.and_eq_true]
+  refine ⟨⟨?_, ?_⟩, ?_⟩
+  · -- H1
+    unfold h1
+    rw [List.all_eq_true]
+    intro c hc
+    simp only [List.mem_range, (obs_lens s'').1] at hc
+    have hc' : c < s.nConns := by omega
+    simp only [obs_conn, hc, hc', if_true, proj, authPair_map, q1]
+    split
+    · rename_i hcond
+      simp only [Bool.and_eq_true, bne_iff_ne, ne_eq] at hcond
+      rcases sp.auth c with a | a | ⟨a, x, b, d⟩
+      · exact absurd a hcond.2
+      · rw [a] at hcond; simp [pairOf] at hcond
+      · rw [b]
+        simp only [a, beq_self_eq_true, Bool.true_and]
+        exact hJ c x d
+    · rfl
+  · -- H3
+    unfold h3
+    rw [List.all_eq_true]
+    intro x hx
+    simp only [List.mem_range, (obs_lens s'').2] at hx
+    simp only [obs_lookup, hx, if_true, proj, q4]
+    cases hreg : s'.reg x with
+    | none => rfl
+    | some c =>
+      simp only []
+      rcases sp.reg x c hreg with a | ⟨a, b, d, f, g⟩
+      · have hxs := I.i9 x c a
+        simp [hxs, a]
+      · have hcc : c < s''.nConns := by omega
+        have : (e.conn? == some c && authAs ((obsState s'').conn c) x && r != .fail && r != .na) = true := by
+          simp only [a, beq_self_eq_true, Bool.true_and, authAs, obs_conn, hcc, if_true, authPair_map, q1, b,
+            Bool.and_eq_true, bne_iff_ne, ne_eq]
+          exact ⟨d, f⟩
+        simp [this]
+  · -- H5
+    unfold h5
+    cases hr : r with
+    | ok =>
+      obtain ⟨c, ty, k, rr, he, hlt, _, hpair, hj⟩ := sp.rok hr
+      subst he
+      have hcc : c < s''.nConns := by omega
+      simp only [Bool.and_eq_true, authAs, obs_conn, hcc, if_true, authPair_map, q1, hpair, beq_self_eq_true, and_true]
+      rw [← hr]; exact hJ c k hj
+    | new x =>
+      obtain ⟨c, ty, he, hlt, hpair, hj⟩ := sp.rnew x hr
+      subst he
+      have hcc : c < s''.nConns := by omega
+      simp only [Bool.and_eq_true, authAs, obs_conn, hcc, if_true, authPair_map, q1, hpair, beq_self_eq_true, and_true]
+      rw [← hr]; exact hJ c x hj
+    | ch n => rfl
+    | fail => rfl
+    | none => rfl
+    | na => rfl
+
+theorem proj_step (s : Srv) (e : Event) :
+    (proj s).next s.now e ⟨(step s e).2, obsState (step s e).1⟩ = proj (step s e).1 := by
+  simp only [Track.next, proj, (obs_lens s).2]
+  rfl
+
+theorem step_now_ipOf (s : Srv) (e : Event) : (step s e).1.now = s.now ∧ (step s e).1.ipOf = s.ipOf := by
+  have sp := stepCore_spec s e
+  exact ⟨sp.frame.1, sp.frame.2.2.1⟩
+
+theorem holdsFrom_run {s : Srv} (I : Inv s) (es : List Event) :
+    holdsFrom s.now s.ipOf (proj s) es (run s es) = true := by
+  induction es generalizing s with
+  | nil => rfl
+  | cons e es ih =>
+    simp only [run, holdsFrom, Bool.and_eq_true]
+    refine ⟨holdsStep_model I e, ?_⟩
+    rw [proj_step]
+    have := ih (I.preserved e)
+    rw [(step_now_ipOf s e).1, (step_now_ipOf s e).2] at this
+    exact this
